@@ -379,6 +379,11 @@ class Dimension:
         cls, dimension: "Dimension", name: str, symbol: Optional[str] = None
     ) -> "Dimension":
         """Registers a new named dimension derived from other dimension"""
+        if cls._by_name.get(name, dimension) is not dimension:
+            raise ValueError(f"A dimension named {name} is already defined")
+        if dimension.name and dimension.name != name:
+            raise ValueError(f"{dimension!r} is already named {dimension.name}")
+
         dimension.name = name
         dimension.symbol = symbol or str(dimension)
         cls._by_name[name] = dimension
@@ -641,8 +646,14 @@ class Prefix:
             return IdentityPrefix
 
         key = (base, exponent)
-        if key in cls._known:
-            return cls._known[key]
+        existing = cls._known.get(key)
+        if name and cls._by_name.get(name, existing) is not existing:
+            raise ValueError(f"A prefix named {name} is already defined")
+        if symbol and cls._by_symbol.get(symbol, existing) is not existing:
+            raise ValueError(f"A prefix with symbol {symbol} is already defined")
+
+        if existing is not None:
+            return existing
 
         self = super().__new__(cls)
         self._initialized = False
